@@ -66,6 +66,16 @@ def verify_root(trusted_current_root_metadata, untrusted_new_root_metadata):
             '"root".'
         )
 
+    # Root metadata must delegate to root itself (root chaining depends on it).
+    if (
+        "root" not in trusted_current_root_metadata["signed"]["delegations"]
+        or "root" not in untrusted_new_root_metadata["signed"]["delegations"]
+    ):
+        raise ValueError(
+            'Expected root metadata that includes a delegation to "root" '
+            "(listing the root keys and threshold)."
+        )
+
     # Extract rules for root from old, trusted version of root.
     root_expectations = trusted_current_root_metadata["signed"]["delegations"]["root"]
     expected_threshold = root_expectations["threshold"]
